@@ -1456,6 +1456,15 @@ func (s *Netceptor) handleRoutingUpdate(ri *routingUpdate, recvConn string) {
 		// Our peer is still trying to initialize
 		return
 	}
+	for _, cost := range ri.Connections {
+		if cost <= 0.0 {
+			// Connection costs must be positive (see runProtocol); the shortest-path
+			// computation in updateRoutingTable does not terminate on a non-positive cycle.
+			s.Logger.SanitizedWarning("Ignoring routing update %s from %s with non-positive connection cost\n", ri.UpdateID, ri.NodeID)
+
+			return
+		}
+	}
 	if ri.NodeID == s.nodeID {
 		if ri.UpdateEpoch == s.epoch {
 			return
